@@ -1,1 +1,38 @@
-(* placeholder *) From Klepto Require Import Keys.
+(* C17  Keys are stable across interpreter sessions (partial). *)
+From Klepto Require Import PyVal KFacts Keys KeygenFacts KeyProps.
+
+(* The only inputs of the key pipeline that depend on the interpreter process are (1) the iteration
+   order of the SET of ignored names inside _keygen and (2) the order in which the caller wrote
+   keywords.  The structured key depends on neither: *)
+Theorem C17_independent_of_set_order : forall sig ignored k order1 order2 c b,
+  wf_sig sig -> wf_call c -> order_ok sig ignored order1 -> order_ok sig ignored order2 -> bind sig c = Some b ->
+  keymap_raw k (fst (keygen_ord sig ignored order1 c)) (snd (keygen_ord sig ignored order1 c)) =
+  keymap_raw k (fst (keygen_ord sig ignored order2 c)) (snd (keygen_ord sig ignored order2 c)).
+Proof. exact key_independent_of_set_order. Qed.
+
+Theorem C17_independent_of_keyword_order : forall sig ignored k order1 order2 c1 c2 b1 b2,
+  wf_sig sig -> wf_call c1 -> wf_call c2 -> order_ok sig ignored order1 -> order_ok sig ignored order2 ->
+  bind sig c1 = Some b1 -> bind sig c2 = Some b2 -> same_binding b1 b2 ->
+  keymap_raw k (fst (keygen_ord sig ignored order1 c1)) (snd (keygen_ord sig ignored order1 c1)) =
+  keymap_raw k (fst (keygen_ord sig ignored order2 c2)) (snd (keygen_ord sig ignored order2 c2)).
+Proof. exact key_canonical. Qed.
+
+(* the raw keymap itself reads the keyword dict only as a finite map (its order is irrelevant) *)
+Theorem C17_keymap_ignores_dict_order : forall k a m1 m2, NoDup (kkeys m1) -> NoDup (kkeys m2) -> map_eq m1 m2 ->
+  keymap_raw k a m1 = keymap_raw k a m2.
+Proof. exact keymap_raw_map_eq. Qed.
+
+(* non-vacuity: def f(x, y, z), ignore=('x','y','z'): the three NULLs are inserted in set order;
+   two different orders give the same non-flat key (the case that differed before the fix for D3/D14) *)
+Definition s3 := mkSig [([120], None); ([121], None); ([122], None)] false [] false.
+Example C17_witness :
+  let ig := [IName [120]; IName [121]; IName [122]] in let c : call := ([VInt 1; VInt 2; VInt 3], []) in
+  let k := mkK false false false in
+  keymap_raw k (fst (keygen_ord s3 ig [[121]; [120]; [122]] c)) (snd (keygen_ord s3 ig [[121]; [120]; [122]] c)) =
+  keymap_raw k (fst (keygen_ord s3 ig [[122]; [121]; [120]] c)) (snd (keygen_ord s3 ig [[122]; [121]; [120]] c)) /\
+  snd (keygen_ord s3 ig [[121]; [120]; [122]] c) <> snd (keygen_ord s3 ig [[122]; [121]; [120]] c).
+Proof. cbv zeta. split; vm_compute; congruence. Qed.
+
+Print Assumptions C17_independent_of_set_order.
+Print Assumptions C17_independent_of_keyword_order.
+Print Assumptions C17_keymap_ignores_dict_order.
